@@ -66,6 +66,8 @@ pub enum Call {
     ReaderArc { second: bool },
     /// the user's reader panics in the middle of an anchored document (caught by the caller)
     ReaderPanics,
+    /// the user's writer panics in the middle of a shared graph with a `!!binary` scalar (caught by the caller)
+    SerWriterPanics,
     /// a `Serialize` impl that serialises another shared graph to a string while the outer one is being written
     SerNested,
     /// the budget-report callback panics (the panic is caught by the caller, the thread lives on)
@@ -89,7 +91,8 @@ pub enum Call {
     NestRecursive { k: u8, inner: Box<Call> },
 }
 
-pub const BASIC: [Call; 50] = [
+pub const BASIC: [Call; 51] = [
+    Call::SerWriterPanics,
     Call::ReaderPanics,
     Call::SerNested,
     Call::ReaderRc { second: false },
@@ -476,6 +479,40 @@ pub fn run_call(c: &Call) -> String {
             }
             let rd = PanicAt(std::io::Cursor::new(b"a: &s shared\nb: *s\nc: &t more\nd: *t\n"), 16);
             res(guard(|| serde_saphyr::from_reader::<_, RcDoc>(rd)), |d| format!("a={}", d.a.0))
+        }
+        Call::SerWriterPanics => {
+            struct PanicAfter(usize);
+            impl std::io::Write for PanicAfter {
+                fn write(&mut self, buf: &[u8]) -> std::io::Result<usize> {
+                    if self.0 < buf.len() {
+                        std::panic::panic_any(SimMarker::ProbePanic);
+                    }
+                    self.0 -= buf.len();
+                    Ok(buf.len())
+                }
+                fn flush(&mut self) -> std::io::Result<()> {
+                    Ok(())
+                }
+            }
+            #[derive(Serialize)]
+            struct G {
+                a: RcAnchor<String>,
+                blob: Blob,
+                b: RcAnchor<String>,
+            }
+            let s = std::rc::Rc::new("shared".to_string());
+            let g = G {
+                a: RcAnchor(s.clone()),
+                blob: Blob(b"hello world".to_vec()),
+                b: RcAnchor(s),
+            };
+            let mut w = PanicAfter(30);
+            match guard(|| serde_saphyr::to_io_writer(&mut w, &g)) {
+                Ok(Ok(())) => "Ok".into(),
+                Ok(Err(e)) => format!("SerErr({e})"),
+                Err(Abnormal::ProbePanic) => "writer-panic".into(),
+                Err(a) => format!("{a:?}"),
+            }
         }
         Call::SerNested => {
             struct Inner;
